@@ -199,5 +199,118 @@ pub fn run(ctx: &Ctx) -> i32 {
     }
     check::clean_work("C17-ladder");
     done.store(1, Ordering::SeqCst);
+    if ctx.thorough() || std::env::var("VERIF_FUZZ").is_ok() {
+        fuzz_lane(ctx, &mut rep, &so, &known, &dnas);
+    }
     rep.finish()
+}
+
+/// Coverage-guided lane (thorough tier): the cargo-fuzz target in /verif/fuzz decodes bytes into the same
+/// choice stream; crashing inputs are re-evaluated here and confirmed through rustc like any other candidate.
+fn fuzz_lane(ctx: &Ctx, rep: &mut Report, so: &std::path::Path, known: &[check::Known], seeds: &[Vec<u16>]) {
+    use std::process::Command;
+    let work = engine::work_dir("C17-fuzz");
+    let corpus = work.join("corpus");
+    let artifacts = work.join("artifacts");
+    let _ = std::fs::remove_dir_all(&corpus);
+    let _ = std::fs::remove_dir_all(&artifacts);
+    std::fs::create_dir_all(&corpus).unwrap();
+    std::fs::create_dir_all(&artifacts).unwrap();
+    // starting corpus: the first choice streams of this run's proptest draw (small valid inputs)
+    for (i, d) in seeds.iter().take(64).enumerate() {
+        let bytes: Vec<u8> = d.iter().flat_map(|v| v.to_le_bytes()).collect();
+        let _ = std::fs::write(corpus.join(format!("seed{i:03}")), bytes);
+    }
+    let envs = [("RUSTFLAGS", "--cfg magiclen_educe_verif"), ("CARGO_NET_OFFLINE", "true")];
+    let build = Command::new("cargo")
+        .args(["+nightly", "fuzz", "build", "--fuzz-dir", "/verif/fuzz", "expand"])
+        .envs(envs)
+        .current_dir("/verif/harness/vcheck")
+        .output();
+    match build {
+        Ok(o) if o.status.success() => {},
+        Ok(o) => {
+            rep.inconclusive.push(format!("the libFuzzer target does not build: {}", String::from_utf8_lossy(&o.stderr).lines().rev().take(6).collect::<Vec<_>>().join(" / ")));
+            return;
+        },
+        Err(e) => {
+            rep.inconclusive.push(format!("cargo +nightly fuzz is not available: {e}"));
+            return;
+        },
+    }
+    let runs = ctx.scale(20000, 30000);
+    let jobs = 16;
+    let out = Command::new("cargo")
+        .args(["+nightly", "fuzz", "run", "--fuzz-dir", "/verif/fuzz", "expand"])
+        .arg(&corpus)
+        .arg("--")
+        .args([
+            &format!("-runs={runs}"),
+            &format!("-seed={}", ctx.seed.wrapping_add(1)),
+            "-max_len=1200",
+            "-len_control=0",
+            &format!("-jobs={jobs}"),
+            &format!("-workers={jobs}"),
+            &format!("-artifact_prefix={}/", artifacts.display()),
+        ])
+        .envs(envs)
+        .current_dir(&work)
+        .output();
+    let Ok(out) = out else {
+        rep.inconclusive.push("could not run the libFuzzer target".into());
+        return;
+    };
+    // every job logs "Done N runs"
+    let mut total = 0u64;
+    let mut cov = 0u64;
+    for k in 0..jobs {
+        if let Ok(t) = std::fs::read_to_string(work.join(format!("fuzz-{k}.log"))) {
+            for l in t.lines() {
+                if let Some(rest) = l.strip_prefix("Done ") {
+                    total += rest.split(' ').next().and_then(|n| n.parse::<u64>().ok()).unwrap_or(0);
+                }
+                if let Some(i) = l.find(" cov: ") {
+                    cov = cov.max(l[i + 6..].split(' ').next().and_then(|n| n.parse::<u64>().ok()).unwrap_or(0));
+                }
+            }
+        }
+    }
+    rep.count("libfuzzer_executions", total);
+    rep.count("libfuzzer_max_edge_coverage", cov);
+    rep.evaluations += total;
+    let _ = out;
+    // crashing inputs
+    let mut crashes: Vec<Vec<u16>> = Vec::new();
+    if let Ok(rd) = std::fs::read_dir(&artifacts) {
+        for e in rd.flatten() {
+            if let Ok(bytes) = std::fs::read(e.path()) {
+                crashes.push(bytes.chunks(2).map(|c| u16::from_le_bytes([c[0], *c.get(1).unwrap_or(&0)])).collect());
+            }
+        }
+    }
+    rep.count("libfuzzer_crashing_inputs", crashes.len() as u64);
+    if total == 0 && crashes.is_empty() {
+        rep.inconclusive.push("the libFuzzer campaign reported no executions".into());
+    }
+    for dna in crashes {
+        let r = eval(&dna);
+        let unit = Unit { body: format!("use educe::Educe;\n#[derive(Educe)]\n{}\n", r.src), has_run: false };
+        let o = engine::eval_batch("C17-fuzz-confirm", &[unit.clone()], so, "", false);
+        let u = &o.units[0];
+        if u.proc_macro_panic || u.died.is_some() {
+            let site = match &r.result {
+                Expansion::Panic(m) => panic_site(m),
+                _ => String::new(),
+            };
+            if let Some(kf) = known.iter().find(|kf| kf.property == "C17" && kf.status == "open" && kf.signature == "panic_in_hash_union_hint" && site.contains("hash/panic.rs")) {
+                rep.known(&kf.id, &kf.what);
+                continue;
+            }
+            rep.violations.push(Failure { msg: format!("libFuzzer input makes the shipping macro panic: {:?} {:?}", r.result, u.died), dna, variant: "libfuzzer".into(), source: r.src.clone(), unit_body: Some(unit.body) });
+        } else {
+            rep.count("libfuzzer_crash_not_reproduced_by_rustc(fallback only)", 1);
+        }
+    }
+    check::clean_work("C17-fuzz-confirm");
+    check::clean_work("C17-fuzz");
 }
